@@ -150,6 +150,16 @@ pub fn unknown_payloads() -> Vec<Val> {
     v
 }
 
+/// unknown payloads whose element count crosses the 16-bit boundary (variable-size elements);
+/// used in one position per type only (they are large)
+pub fn large_unknown_payloads() -> Vec<Val> {
+    vec![
+        Val::List(T::Bin, (0..65537).map(|i| Val::Bin(vec![b'a' + (i % 26) as u8])).collect()),
+        Val::Map(T::I32, T::Bin, (0..32769).map(|i| (Val::I32(i), Val::Bin(vec![b'v']))).collect()),
+        Val::List(T::Struct, (0..65536).map(|_| Val::Struct(vec![])).collect()),
+    ]
+}
+
 fn fresh_ids(d: &TypeDef) -> Vec<i16> {
     // an id below all, one in a gap (if any), one just above, one far above
     let used: Vec<i16> = d.fields.iter().map(|f| f.id).collect();
@@ -493,6 +503,20 @@ pub fn c13(cx: &Ctx, col: &mut Collector) {
                     col.sample(json!({"reader": format!("{}::{}", e.doc, e.ty), "extra": ename, "writer_value": w.show()}));
                 }
                 c13_one(col, cx, e, k0, doc, def, &ename, &w);
+            }
+        }
+        // one unknown field holding a very large container, behind the known fields of the
+        // first base value
+        if let Some(Val::Struct(fs)) = base_values(&g, def).first() {
+            let id = fresh_ids(def).into_iter().filter(|i| *i > 0).max().unwrap_or(30000);
+            for (pi, p) in large_unknown_payloads().into_iter().enumerate() {
+                if !col.next_case("extra:large") {
+                    continue;
+                }
+                col.nontrivial += 1;
+                let mut w = fs.clone();
+                w.push((id, p));
+                c13_one(col, cx, e, k0, doc, def, &format!("one:large{}", pi), &Val::Struct(w));
             }
         }
     });
